@@ -17,8 +17,8 @@ import (
 func init() {
 	register(Property{ID: "C11", Level: "proof", Run: runC11,
 		Technique: "static analysis: type-graph walk (go/types) from conf.Conf and conf.Path against the kinds conf.deepClone compares rv.Kind() with; per kind, evaluation of deepClone on SSA under the assumption rv.Kind() == K (feasible returns, allocation, recursion; prop_gen_c11.go); SSA rule on the Clone methods",
-		Text: "Every type reachable from conf.Conf and conf.Path (all fields, including json:\"-\" ones) is of a kind for which conf.deepClone has a case that allocates a fresh container and recurses into every element (pointer, struct, slice, map, interface), or is a value kind; reference kinds without a case (func, chan, unsafe pointer), module-defined structs with unexported fields (silently dropped by CanSet) and opaque third-party structs outside a one-row table are violations. Each case of deepClone allocates, recurses, and returns the input unchanged only under IsNil. Conf.Clone/Path.Clone call deepClone on the receiver value - the whole, unmodified receiver: no receiver field is overwritten before the call, no field of the result is assigned afterwards (except from a deepClone of the receiver's same field), and the method contains no map update, store through a reference or call other than reflect.ValueOf → deepClone → Interface. Together: a clone shares no mutable storage with the original. Obligations = reachable types + switch cases + Clone methods.",
-		Note: "trusted: reflect semantics (New/MakeSlice/MakeMap/Set, CanSet false for unexported fields); the dynamic values behind interface-typed fields (OptionalPath.Values, built with reflect.StructOf from Path's own fields) consist of kinds in the same graph; table exception: Path.Regexp *regexp.Regexp is re-allocated with zeroed unexported fields - not shared, hence independent (its usability is C12/C15's concern)"})
+		Text:      "Every type reachable from conf.Conf and conf.Path (all fields, including json:\"-\" ones) is of a kind for which conf.deepClone has a case that allocates a fresh container and recurses into every element (pointer, struct, slice, map, interface), or is a value kind; reference kinds without a case (func, chan, unsafe pointer), module-defined structs with unexported fields (silently dropped by CanSet) and opaque third-party structs outside a one-row table are violations. Each case of deepClone allocates, recurses, and returns the input unchanged only under IsNil. Conf.Clone/Path.Clone call deepClone on the receiver value - the whole, unmodified receiver: no receiver field is overwritten before the call, no field of the result is assigned afterwards (except from a deepClone of the receiver's same field), and the method contains no map update, store through a reference or call other than reflect.ValueOf → deepClone → Interface. Together: a clone shares no mutable storage with the original. Obligations = reachable types + switch cases + Clone methods.",
+		Note:      "trusted: reflect semantics (New/MakeSlice/MakeMap/Set, CanSet false for unexported fields); the dynamic values behind interface-typed fields (OptionalPath.Values, built with reflect.StructOf from Path's own fields) consist of kinds in the same graph; table exception: Path.Regexp *regexp.Regexp is re-allocated with zeroed unexported fields - not shared, hence independent (its usability is C12/C15's concern)"})
 	addMutants(
 		Mutant{"C11", "slice-returned-shallow", "internal/conf/conf.go",
 			"		newSlice := reflect.MakeSlice(rv.Type(), rv.Len(), rv.Cap())\n		for i := range rv.Len() {\n			newSlice.Index(i).Set(deepClone(rv.Index(i)))\n		}\n		return newSlice",
